@@ -553,51 +553,51 @@ def rule_call_validation(ctx, ix):
     else:
         ctx.fail("C10.must-pass-through", "compile/_tensor_method.py:TensorMethod.__call__:signature.bind", "arguments are not bound through self.signature.bind(*args, **kwargs) before the kernel call")
         return
-    # signature: keyword-only parameter per input format (templates; `.keys()` is transparent, locals are free)
-    import copy
-
-    from .core import _pat, tfind, tmatch, tsolve
-
-    class StripKeys(ast.NodeTransformer):
-        def visit_Call(self, n):
-            self.generic_visit(n)
-            if isinstance(n.func, ast.Attribute) and n.func.attr == "keys" and not n.args and not n.keywords:
-                return n.func.value
-            return n
-
-    init = StripKeys().visit(copy.deepcopy(ix.func(f"{TM}.__init__").node))
+    # signature: TensorMethod.__init__ is evaluated abstractly (self_via_init); the Signature it builds must have
+    # exactly one keyword-only parameter per input tensor, in the order of problem.formats
     ctx.instance("C10.must-pass-through")
-    sig = None
-    for n, bb in tfind(init, "Signature([Parameter(_V_p, Parameter.KEYWORD_ONLY, annotation=Tensor) for _V_p in self._input_formats])"):
-        sig = bb
-    for n, bb in tfind(init, "Signature([Parameter(_V_p, Parameter.KEYWORD_ONLY, annotation=Tensor) for _V_p in _V_src])"):
-        if _origin(init, bb["_V_src"]) in ("self._input_formats",):
-            sig = bb
-    # the input formats are all formats but the output's
-    excl = any(True for _n, _b in tfind(init, "_V_n != self._output_name")) or any(True for _n, _b in tfind(init, "_V_n != _E_out"))
-    if sig is not None and excl:
+    sig_problems = []
+    for text, target_first in (("y(i) = A(i,j) * x(j)", True), ("y(i) = A(i,j) * x(j)", False), ("a(i) = b(i) + c(i) + d(i)", True)):
+        hand, _tensors, _parts, formats = call_scenario(text, 0, None, target_first)
+        prob = hand.attrs["_problem"]
+        prob.attrs["__methods__"] = {f.name: f.node for q, f in ix.funcs.items() if q == f"tensora.problem.Problem.{f.name}"}
+        me = self_via_init(ix, prob, lambda *a: None)
+        if me is None or "signature" not in me.attrs or "parameters" not in getattr(me.attrs["signature"], "attrs", {}):
+            sig_problems.append("TensorMethod.__init__ not interpretable: no Signature(...) of Parameter(...) objects is stored in self.signature")
+            continue
+        params = me.attrs["signature"].attrs["parameters"]
+        tname = hand.attrs["_output_name"]
+        want = [n for n in formats if n != tname]
+        got = [p_.attrs["name"] for p_ in params]
+        if got != want:
+            sig_problems.append(f"{text}: signature parameters {got}, the input tensors are {want}")
+        if any(p_.attrs["kind"] != "KEYWORD_ONLY" for p_ in params):
+            sig_problems.append(f"{text}: a parameter is not keyword-only (positional arguments would be bound by position, not by tensor name)")
+    if not sig_problems:
         ctx.ok("C10.must-pass-through", "compile/_tensor_method.py:TensorMethod.__init__:signature")
     else:
-        ctx.fail("C10.must-pass-through", "compile/_tensor_method.py:TensorMethod.__init__:signature", "signature is not one keyword-only parameter per input tensor")
+        ctx.fail("C10.must-pass-through", "compile/_tensor_method.py:TensorMethod.__init__:signature", "signature is not one keyword-only parameter per input tensor: " + "; ".join(sorted(set(sig_problems)))[:500])
     # BroadcastTargetIndexError in __init__ guarantees that every target index has a participant
     # (so the per-target-index lookup of the validated sizes cannot fail with KeyError)
     ctx.instance("C10.must-pass-through")
     key = "compile/_tensor_method.py:TensorMethod.__init__:target indexes have participants"
-    good = False
-    for l_ in [n for n in ast.walk(init) if isinstance(n, ast.For) and isinstance(n.target, ast.Name) and u(n.iter) == "problem.assignment.target.indexes"]:
-        for st in ast.walk(l_):
-            if isinstance(st, ast.If) and any(isinstance(x, ast.Raise) and "BroadcastTargetIndexError" in u(x) for x in st.body):
-                bb = {"_V_i": l_.target.id}
-                if tmatch(_pat("_V_i not in _V_s"), st.test, bb):
-                    org = _origin(init, bb["_V_s"])
-                    if org in ("set(problem.assignment.expression.index_participants())", "problem.assignment.expression.index_participants()", "frozenset(problem.assignment.expression.index_participants())"):
-                        good = True
-                elif u(st.test) == f"{l_.target.id} not in problem.assignment.expression.index_participants()":
-                    good = True
-    if good:
+    # a target index that no right-hand-side tensor carries has no size: __init__ must refuse the problem
+    bad = []
+    for text in ("a(i,j) = b(i)", "a(i) = b()", "A(i,j) = B(j,k) * c(k)"):
+        hand, _tensors, _parts, _formats = call_scenario(text, 0, None, True)
+        prob = hand.attrs["_problem"]
+        prob.attrs["__methods__"] = {f.name: f.node for q, f in ix.funcs.items() if q == f"tensora.problem.Problem.{f.name}"}
+        outs = []
+        self_via_init(ix, prob, lambda *a: None, outcomes=outs)
+        if not outs or any(k != "raise" for k, _v in outs):
+            kinds = sorted({f"{k} {v!r}"[:80] if k == "uninterpretable" else k for k, v in outs})
+            bad.append(f"{text}: {'not interpretable: ' if any(k == 'uninterpretable' for k, _v in outs) else ''}construction {kinds or 'has no outcome'}")
+        elif any(v.split(".")[-1] != "BroadcastTargetIndexError" for _k, v in outs):
+            bad.append(f"{text}: raises {sorted({v for _k, v in outs})}, documented is BroadcastTargetIndexError")
+    if not bad:
         ctx.ok("C10.must-pass-through", key)
     else:
-        ctx.fail("C10.must-pass-through", key, "TensorMethod.__init__ does not reject target indexes missing from the right-hand side (KeyError at call time)")
+        ctx.fail("C10.must-pass-through", key, "TensorMethod.__init__ does not reject target indexes missing from the right-hand side (KeyError at call time): " + "; ".join(bad)[:400])
 
 
 def _parse_assignment_text(text):
@@ -606,7 +606,7 @@ def _parse_assignment_text(text):
     t = re.match(r"\s*(\w+)\(([\w,]*)\)", lhs)
     return (t.group(1), tuple(_split(t.group(2)))), [(n, tuple(_split(ix_))) for n, ix_ in occ]
 
-def self_via_init(ix, problem, evaluate):
+def self_via_init(ix, problem, evaluate, outcomes=None):
     """The TensorMethod a call works on is the one TensorMethod.__init__ builds: evaluate __init__ abstractly on
     the scenario's Problem (code generation and compilation are opaque and hand back `evaluate`), so that
     anything __init__ precomputes for __call__ is there.  None if __init__ is outside the modelled fragment."""
@@ -655,6 +655,8 @@ def self_via_init(ix, problem, evaluate):
     )
     me = S.Obj("TensorMethod")
     outs = list(S.explore(init.node, [me, problem], {"backend": "llvm"}, globals_=G))
+    if outcomes is not None:
+        outcomes.extend(o[1] for o in outs)
     if len(outs) != 1 or outs[0][1][0] != "return" or "_evaluate" not in me.attrs:
         return None
     return me
@@ -703,6 +705,7 @@ def call_scenario(text, participant_order=0, evaluate=None, target_first=True, i
         _evaluate=evaluate,
     )
     if ix is not None:
+        self_.attrs["_problem"].attrs["__methods__"] = {f.name: f.node for q, f in ix.funcs.items() if q == f"tensora.problem.Problem.{f.name}"}
         built = self_via_init(ix, self_.attrs["_problem"], evaluate)
         if built is not None:
             self_ = built
@@ -819,7 +822,8 @@ def rule_call_semantics(ctx, ix):
     bad_cases = []
     self_, tensors, parts, formats = scenario(text, ix=ix)
     self_0 = self_
-    bad_cases.append(("non-Tensor argument", {**tensors, "x": S.Obj("Other")}, (), "TypeError"))
+    bad_cases.append(("non-Tensor argument", {**tensors, "x": S.Obj("Other", __plain__=True)}, (), "TypeError"))
+    bad_cases.append(("a number as argument", {**tensors, "x": 3.0}, (), "TypeError"))
     t = S.make_tensor("x", (S.DENSE, S.DENSE), (0, 1)); t.attrs["cffi_tensor"] = S.Obj("cffi")
     bad_cases.append(("argument of the wrong order", {**tensors, "x": t}, (), "ValueError"))
     t = S.make_tensor("x", (S.COMPRESSED,), (0,)); t.attrs["cffi_tensor"] = S.Obj("cffi")
